@@ -254,6 +254,13 @@ func execSock(c SockCase, bound time.Duration) error {
 				if gerr != nil {
 					return fail("an open connection is no longer served after idle periods passed: %v", gerr)
 				}
+				// ... and it must still be accepting: a service that stopped listening at the first expiry and
+				// only waits for its connections to end has been stopped by the expiry
+				y, derr := dialGetInfo(addr, bound)
+				if derr != nil {
+					return fail("after idle periods passed with %d connection(s) open a new client is no longer served: %v", n, derr)
+				}
+				y.Close()
 				closeAll()
 			}
 			select {
